@@ -9,7 +9,16 @@ PRESETS = [
     dict(maxHead=0, maxProc=20, minShard=1, maxShard=4, maxIdle=0, noAlleviate=False),
     dict(maxHead=10, maxProc=30, minShard=2, maxShard=4, maxIdle=1, noAlleviate=False),
     dict(maxHead=10, maxProc=20, minShard=1, maxShard=4, maxIdle=0, noAlleviate=False),
+    # the shards are a fixed list (static shard manager): scale requests are accepted and change nothing
+    dict(maxHead=10, maxProc=20, minShard=1, maxShard=4, maxIdle=1, noAlleviate=False, static=True),
 ]
+DYNAMIC = [p for p in PRESETS if not p.get('static')]
+
+
+def opts_tla(opts):
+    return '[maxHead |-> %d, maxProc |-> %d, minShard |-> %d, maxShard |-> %d, maxIdle |-> %d, noAlleviate |-> %s%s]' % (
+        opts['maxHead'], opts['maxProc'], opts['minShard'], opts['maxShard'], opts['maxIdle'], 'TRUE' if opts['noAlleviate'] else 'FALSE',
+        ', static |-> TRUE' if opts.get('static') else '')
 MAXN = 4
 NT = 3
 QUIET_ROUNDS = 10
@@ -89,7 +98,7 @@ def gen_placement_schedule(rnd, idn, faults):
     """Directed family: the run starts from an arbitrary placement - every shard was handed an arbitrary set of
     targets in arbitrary states (duplicates, pending transfers without partner, undiscovered targets) by somebody
     else (a coordinator that crashed half-way through a cycle, another instance) - then the quiet tail."""
-    opts = rnd.choice(PRESETS)
+    opts = rnd.choice(DYNAMIC)
     sizes = [gen_size(rnd, opts, allow_big=False) for _ in range(NT)]
     st = []
     for t in range(1, NT + 1):
@@ -168,7 +177,8 @@ def gen_schedule(rnd, idn, faults):
     if x < 0.62:
         return gen_placement_schedule(rnd, idn, faults)
     opts = rnd.choice(PRESETS)
-    sizes = [gen_size(rnd, opts) for _ in range(NT)]
+    static = bool(opts.get('static'))
+    sizes = [gen_size(rnd, opts) for _ in range(NT)] if not static else [dict(series=rnd.choice([1, 2, 3]), total=rnd.choice([3, 4])) for _ in range(NT)]
     st = []
     disc = set()
     for t in range(1, NT + 1):
@@ -207,7 +217,7 @@ def gen_schedule(rnd, idn, faults):
                 disc.add(t)
         elif x < 0.45:
             t = rnd.randint(1, NT)
-            z = gen_size(rnd, opts)
+            z = gen_size(rnd, opts) if not static else dict(series=rnd.choice([1, 2, 3]), total=rnd.choice([3, 4]))
             sizes_t = z
             st.append(step('size', t=t, series=z['series'], total=z['total']))
             if rnd.random() < 0.5:
@@ -233,12 +243,11 @@ def gen_schedule(rnd, idn, faults):
         for k in range(3):
             for i in range(1, MAXN + 1):
                 st.append(step('scrape', i=i))
-    return dict(id=idn, nsh0=rnd.choice([1, 1, 2]), nt=NT, opts=opts, sizes=sizes, steps=st, quietFrom=quiet_from, expectConverge=True)
+    return dict(id=idn, nsh0=rnd.choice([1, 1, 2]) if not static else rnd.choice([1, 2, 3]), nt=NT, opts=opts, sizes=sizes, steps=st, quietFrom=quiet_from, expectConverge=True)
 
 
 def trace_cfg(opts):
-    o = '[maxHead |-> %d, maxProc |-> %d, minShard |-> %d, maxShard |-> %d, maxIdle |-> %d, noAlleviate |-> %s]' % (
-        opts['maxHead'], opts['maxProc'], opts['minShard'], opts['maxShard'], opts['maxIdle'], 'TRUE' if opts['noAlleviate'] else 'FALSE')
+    o = opts_tla(opts)
     mod = '---- MODULE MCTrace ----\nEXTENDS KvassTrace\nOpts == %s\n====\n' % o
     k = CY.MODEL_CONSTANTS
     cfg = '''CONSTANTS
@@ -322,11 +331,10 @@ def sim_schedules(sd, faults, per_preset, first_id):
         for f in os.listdir(sd):
             if f.endswith('.tla'):
                 os.link(os.path.join(sd, f), os.path.join(gd, f))
-        o = '[maxHead |-> %d, maxProc |-> %d, minShard |-> %d, maxShard |-> %d, maxIdle |-> %d, noAlleviate |-> %s]' % (
-            opts['maxHead'], opts['maxProc'], opts['minShard'], opts['maxShard'], opts['maxIdle'], 'TRUE' if opts['noAlleviate'] else 'FALSE')
+        o = opts_tla(opts)
         open(os.path.join(gd, 'MCSim.tla'), 'w').write(
             '---- MODULE MCSim ----\nEXTENDS SimKvass\nOpts == %s\nSizeSet == {%s}\nNoneSet == {{}}\n====\n' % (
-                o, ', '.join('[series |-> %d, total |-> %d]' % z for z in SIM_SIZES)))
+                o, ', '.join('[series |-> %d, total |-> %d]' % z for z in (SIM_SIZES if not opts.get('static') else SIM_SIZES[:3]))))
         depth = 260
         cfg = '''CONSTANTS
   MinWait = %d
